@@ -256,20 +256,20 @@ Lemma cl_vm_call m f n :
   cl cfg Ev m (S f) (vm_call G ur n).
 Proof.
   intros Hn IH. unfold vm_call, prim_range.
-  repeat match goal with |- cl _ _ _ _ (if str_eqb ?a ?b then _ else _) => destruct (str_eqb a b) eqn:? end;
-    try (first [ apply cl_prim; intros _; reflexivity
-               | apply cl_rule', cl_prim; intros _; reflexivity
-               | apply cl_else'; [apply cl_else'|]; apply cl_prim; intros _; reflexivity
-               | apply cl_else'; apply cl_prim; intros _; reflexivity ]).
-  - (* POP *) apply cl_prim. intros M. specialize (Hn M).
-    repeat match goal with H : str_eqb n ?x = ?b |- _ => try rewrite H in Hn; clear H end. discriminate Hn.
-  - (* POP_ALL *) apply cl_prim. intros M. specialize (Hn M).
-    repeat match goal with H : str_eqb n ?x = ?b |- _ => try rewrite H in Hn; clear H end. discriminate Hn.
-  - destruct (has_orule G n) eqn:Ho.
-    + destruct (has_orule_first G n Ho) as (r & Er & _).
-      eapply cl_call; [unfold Ev; apply vm_env_at; exact Er|]. apply IH; auto.
-      intros M. specialize (Hn M). apply andb_prop in Hn. destruct Hn as [_ Hn]. cbn in Hn.
-      destruct (in_C_clean n Hn) as (r' & Er' & Fc). congruence.
+  destruct (has_orule G n) eqn:Ho.
+  - destruct (has_orule_first G n Ho) as (r & Er & _).
+    eapply cl_call; [unfold Ev; apply vm_env_at; exact Er|]. apply IH; auto.
+    intros M. specialize (Hn M). apply andb_prop in Hn. destruct Hn as [_ Hn]. cbn in Hn.
+    destruct (in_C_clean n Hn) as (r' & Er' & Fc). congruence.
+  - repeat match goal with |- cl _ _ _ _ (if str_eqb ?a ?b then _ else _) => destruct (str_eqb a b) eqn:? end;
+      try (first [ apply cl_prim; intros _; reflexivity
+                 | apply cl_rule', cl_prim; intros _; reflexivity
+                 | apply cl_else'; [apply cl_else'|]; apply cl_prim; intros _; reflexivity
+                 | apply cl_else'; apply cl_prim; intros _; reflexivity ]).
+    + (* POP *) apply cl_prim. intros M. specialize (Hn M).
+      repeat match goal with H : str_eqb n ?x = ?b |- _ => try rewrite H in Hn; clear H end. discriminate Hn.
+    + (* POP_ALL *) apply cl_prim. intros M. specialize (Hn M).
+      repeat match goal with H : str_eqb n ?x = ?b |- _ => try rewrite H in Hn; clear H end. discriminate Hn.
     + destruct (ur n); [apply cl_prim; intros _; reflexivity|].
       apply cl_call_none. unfold Ev, vm_env. replace (nth_error G (S (List.length G))) with (@None orule); [reflexivity|].
       symmetry. apply nth_error_None. lia.
